@@ -213,6 +213,8 @@ impl Walrus {
         }
 
         debug_print!("[writer_debug] creating new writer for {}", col_name);
+        #[cfg(feature = "verif")]
+        crate::wal::verif::sched_point("gw_before_write_lock");
 
         let mut map = self.writers.write().map_err(|_| {
             std::io::Error::new(std::io::ErrorKind::Other, "writers write lock poisoned")
@@ -235,6 +237,28 @@ impl Walrus {
         ));
         map.insert(col_name.to_string(), writer.clone());
         Ok(writer)
+    }
+
+    /// Physical layout of a topic: sealed chain then the writer's active block, as
+    /// `(block id, file, offset in file, used bytes, is_tail)`; plus the in-memory cursor.
+    #[cfg(feature = "verif")]
+    pub fn verif_layout(&self, topic: &str) -> (Vec<(u64, String, u64, u64, bool)>, (usize, u64, u64, u64)) {
+        let mut out = Vec::new();
+        let mut cur = (0usize, 0u64, 0u64, 0u64);
+        if let Some(info_arc) = self.reader.data.read().ok().and_then(|m| m.get(topic).cloned()) {
+            if let Ok(info) = info_arc.read() {
+                for b in info.chain.iter() {
+                    out.push((b.id, b.file_path.clone(), b.offset, b.used, false));
+                }
+                cur = (info.cur_block_idx, info.cur_block_offset, info.tail_block_id, info.tail_offset);
+            }
+        }
+        if let Some(w) = self.writers.read().ok().and_then(|m| m.get(topic).cloned()) {
+            if let Ok((b, off)) = w.snapshot_block() {
+                out.push((b.id, b.file_path.clone(), b.offset, off, true));
+            }
+        }
+        (out, cur)
     }
 
     pub(super) fn startup_chore(&self) -> std::io::Result<()> {
